@@ -397,6 +397,10 @@ fn gen_objects(master: u64, job: u64, tier: Tier) -> Vec<(Obj, String)> {
         let (c, _p, raw) = workload::gen_giant_block_stream(&mut rng);
         v.push((Obj::Stream(raw), c.describe()));
     }
+    if job % 64 == 5 {
+        let (c, _p, raw) = workload::gen_wraparound_block_stream(&mut rng);
+        v.push((Obj::Stream(raw), c.describe()));
+    }
     if tier == Tier::Thorough && job < workload::SAMPLE_FILES.len() as u64 {
         if let Some(f) = workload::sample_file(job as usize) {
             v.push((Obj::File(f), format!("samples/{}", workload::SAMPLE_FILES[job as usize])));
